@@ -869,4 +869,38 @@ theorem Key.wrapInt_resolve (k : Key) (n : Nat) :
   | .int i => exact ⟨.idx [i], rfl, rfl⟩
   | .sel s => exact ⟨s, rfl, rfl⟩
 
+/-! ### histories -/
+
+theorem setData_eq (b : Backend) (rows : List Row) : setData b rows = Table.ofRows rows := by
+  unfold setData convert
+  split
+  · rfl
+  · split
+    · rename_i h0
+      have : rows = [] := List.eq_nil_of_length_eq_zero h0
+      subst this; rfl
+    · rfl
+
+/-- rows of one length (what `_validate_data` accepts) -/
+def Rect (rows : List Row) : Prop := ∀ r ∈ rows, r.length = (rows.headD []).length
+
+theorem Table.ofRows_wf_of_rect {rows : List Row} (h : Rect rows) : (Table.ofRows rows).WF :=
+  Table.ofRows_wf h
+
+/-- every query of the history is in scope for the content held when it is asked -/
+def HistValid : Table → List Step → Prop
+  | _, [] => True
+  | t, .query op :: rest => op.Valid t ∧ HistValid t rest
+  | _, .setData rows :: rest => Rect rows ∧ HistValid (Table.ofRows rows) rest
+
+/-- context histories: queries in scope; new data of the same shape; new name lists of the right length -/
+def CHistValid : Table → List CStep → Prop
+  | _, [] => True
+  | t, .query op :: rest => op.Valid t ∧ CHistValid t rest
+  | t, .setData rows :: rest =>
+      Rect rows ∧ (Table.ofRows rows).height = t.height ∧ (Table.ofRows rows).width = t.width ∧
+      CHistValid (Table.ofRows rows) rest
+  | t, .setObjNames ns :: rest => ns.length = t.height ∧ CHistValid t rest
+  | t, .setAttrNames ns :: rest => ns.length = t.width ∧ CHistValid t rest
+
 end Fca
